@@ -36,7 +36,7 @@ type cParams struct {
 	Type    kproto.SignedMsgType
 	Targets int // 0: proposed block vs nil, 1: nil vs unknown id, 2: proposed block vs unknown id
 	Both    int // index into bothSets: which correct nodes receive both votes
-	Late    int // 1: the second vote arrives after the height was decided (precommits only: LastCommit path)
+	Late    int // precommits only (LastCommit path): 1 = the second vote arrives after the height was decided; 2 = so it does at every node of Both but the first, which gets it at once (its evidence is on its way into block He+1 while the others' consensus reports the same pair late)
 	Skew    int // bit set over correct nodes that get the Byzantine precommit for block He-1 while waiting in NewHeight
 	Bound   int
 }
@@ -53,6 +53,9 @@ func (p cParams) String() string {
 	late := ""
 	if p.Late == 1 {
 		late = ",second-vote-after-decision"
+	}
+	if p.Late == 2 {
+		late = ",second-vote-after-decision-except-at-first"
 	}
 	rev := ""
 	if p.reversed() {
@@ -74,6 +77,9 @@ func (p cParams) flavour() []string {
 	}
 	if p.Late == 1 {
 		f = append(f, "second-vote-after-decision")
+	}
+	if p.Late == 2 {
+		f = append(f, "second-vote-at-once-at-one-node-after-decision-at-others")
 	}
 	if p.Net == 1 {
 		f = append(f, "height-needs-second-round")
@@ -215,6 +221,7 @@ func (m *cMonitor) inject(w *netsim.World) {
 		if !inBoth {
 			continue
 		}
+		lateHere := p.Late == 1 || (p.Late == 2 && pos != bothSets[p.Both][0])
 		rs = n.RS()
 		if rs.Height == p.He && rs.Step >= 4 && !m.doneX[i] {
 			if !m.haveIDs {
@@ -243,7 +250,7 @@ func (m *cMonitor) inject(w *netsim.World) {
 			if msg := m.byzVote(w, rs.Validators, p.Type, p.He, m.round, m.idX, m.voteTime(p.He, m.round, p.Type, false), "c19-equivocation-first"); msg != nil {
 				w.Deliver(i, msg)
 			}
-			if p.Late == 0 {
+			if !lateHere {
 				m.doneY[i] = true
 				if msg := m.byzVote(w, rs.Validators, p.Type, p.He, m.round, m.idY, m.voteTime(p.He, m.round, p.Type, false), "c19-equivocation-second"); msg != nil {
 					w.Deliver(i, msg)
@@ -251,7 +258,7 @@ func (m *cMonitor) inject(w *netsim.World) {
 			}
 			continue
 		}
-		if p.Late == 1 && m.doneX[i] && !m.doneY[i] && rs.Height == p.He+1 && rs.Step == 1 && rs.LastCommit != nil {
+		if lateHere && m.doneX[i] && !m.doneY[i] && rs.Height == p.He+1 && rs.Step == 1 && rs.LastCommit != nil {
 			m.doneY[i] = true
 			if msg := m.byzVote(w, rs.LastValidators, p.Type, p.He, m.round, m.idY, m.voteTime(p.He, m.round, p.Type, false), "c19-equivocation-second-late"); msg != nil {
 				w.Deliver(i, msg)
@@ -613,6 +620,19 @@ func cScenarios(cfg int) []cParams {
 						}
 					}
 				}
+			}
+		}
+	}
+	// one node sees both precommits during the height, the others of the set get the second one only while
+	// they wait in NewHeight of the next height: their consensus reports the pair when the first node's
+	// evidence is already on its way into (or in) the next block
+	for _, he := range heights {
+		for _, tg := range targets {
+			for _, both := range []int{3, 4, 5, 6} {
+				if !r.Thorough() && both != 3 && both != 6 {
+					continue
+				}
+				out = append(out, cParams{Cfg: cfg, He: he, Type: kproto.PrecommitType, Targets: tg, Both: both, Late: 2})
 			}
 		}
 	}
